@@ -308,8 +308,10 @@ func (c *Check) Run(e *h.Env, g *Graph) (res Result) {
 	case kAssoc:
 		// parents are read with a plain query (trusted: no eager loading involved)
 		all := newDest(c.Dir.Typ, shPtrSlice)
-		if err := db.Order("seq").Find(all.Interface()).Error; err != nil {
-			res.add("error", "reading parents: %v", err)
+		var rerr error
+		e.Quiet(func() { rerr = db.Order("seq").Find(all.Interface()).Error }) // not part of the operation under test: no recording, no faults
+		if rerr != nil {
+			res.add("error", "reading parents: %v", rerr)
 			return
 		}
 		ptrs := all.Elem()
@@ -580,6 +582,19 @@ func (f *Family) stdChecks(d *Dir, many, one string, joinable bool) {
 		f.assoc(d, one, "cond", condArgs, none, shStruct)
 	}
 	if many != "" && one != "" {
+		// a reusable handle that already carries a Preload, and two statements
+		// derived from it: each must load what IT asked for
+		f.preload(d, "handle=Preload("+one+").Session;q1=handle.Preload("+many+",cond);q2=handle.Preload("+many+");run-q1", func(db *gorm.DB) *gorm.DB {
+			handle := db.Preload(one).Session(&gorm.Session{})
+			q1 := handle.Preload(many, "tag = ?", "x")
+			_ = handle.Preload(many)
+			return q1
+		}, []Exp{{one, ""}, {many, "cond"}}, none, shSlice, shStruct)
+		f.preload(d, "handle=Preload("+one+").Session;q=handle.Preload("+many+");run-handle", func(db *gorm.DB) *gorm.DB {
+			handle := db.Preload(one).Session(&gorm.Session{})
+			_ = handle.Preload(many)
+			return handle
+		}, []Exp{{one, ""}}, none, shSlice)
 		f.preload(d, "Preload("+one+").Preload("+many+",cond)", func(db *gorm.DB) *gorm.DB {
 			return db.Preload(one).Preload(many, "tag = ?", "x")
 		}, []Exp{{one, ""}, {many, "cond"}}, none, shDup, shPrefilled)
